@@ -15,7 +15,7 @@ import re
 
 from .. import core, psx
 from .. import c13_lib as L
-from ..c13_units import QUICK_OPS, all_units
+from ..c13_units import PREAMBLE, QUICK_OPS, all_units
 from ..core import R11
 
 LEVEL = "exploration"
@@ -175,6 +175,11 @@ def check(run):
                    % (cfg, u.cpp, rep, diag), {"kind": "type", "cfg": [cfg.cxx, cfg.std], "unit": u.name, "rep": rep})
         for rid, o in sorted(res.items()):
             u, rep = tmeta[rid]
+            n_types += 1
+            if not o["def_in"]:
+                key = "C13:layout:def_in:rep=%s:unit=%s:cfg=%s" % (rep, u.name, cfg.name)
+                report(key, "%s: default-constructed Quantity/QuantityPoint<%s, %s> does not read back as %s{} through .in(unit)"
+                       % (cfg, u.cpp, rep, rep), {"kind": "type", "cfg": [cfg.cxx, cfg.std], "unit": u.name, "rep": rep, "op": "def_in"})
             for op in L.ops_for(rep):
                 n_types += 1
                 msg = judge_type(o, op.oid)
@@ -186,20 +191,33 @@ def check(run):
     n_eval += n_types
     mark("types")
 
-    # ---- 3. acceptance: every operator use must compile (probes sorted so that failures are contiguous)
+    # ---- 3. acceptance: every operator use must compile.  Sub-int reps (where integral promotion makes the raw
+    #         result type differ from R) are batched per operator so that one rejected family cannot push
+    #         unrelated probes into one-by-one recompilation.
+    SUB = ("int8_t", "uint8_t", "int16_t", "uint16_t")
     plist = []
     for u in ops_units:
         for rep in R11:
             for op in L.ops_for(rep):
-                plist.append((op.oid, rep, u.name))
+                if tier == "thorough" or op.S == "R":
+                    plist.append((rep not in SUB, op.oid, rep, u.name))
     plist.sort()
     pmeta = {}
     probes = []
-    for i, (oid, rep, un) in enumerate(plist):
+    for i, (_, oid, rep, un) in enumerate(plist):
         op = [o for o in L.ops_for(rep) if o.oid == oid][0]
         probes.append(core.Probe(i, L.probe_code(by_name[un], rep, op), "accept"))
         pmeta[i] = (by_name[un], rep, op)
-    out = _multi(cfgs, lambda c: core.run_probes(c, probes, os.path.join(run.wd, "probes"), "acc", L.DUMP_PREAMBLE)[0])
+    n_sub = sum(1 for x in plist if not x[0])
+
+    def probe_cfg(c):
+        wd = os.path.join(run.wd, "probes")
+        r1, _ = core.run_probes(c, probes[:n_sub], wd, "accS", PREAMBLE, batch=len(SUB) * len(ops_units))
+        r2, _ = core.run_probes(c, probes[n_sub:], wd, "accW", PREAMBLE, batch=64)
+        r1.update(r2)
+        return r1
+
+    out = _multi(cfgs, probe_cfg)
     accepted = {}   # cfg name -> unit name -> [(rep, opname)]
     n_rejected = 0
     for cfg in cfgs:
@@ -354,10 +372,11 @@ def replay(path):
         hit = failed.get(0) or (judge_layout(res[0]) or None)
     elif r["kind"] == "type":
         res, failed = psx.run_dump(cfg, [L.type_record(0, u, rep)], wd, "rp", L.DUMP_PREAMBLE)
-        hit = failed.get(0) or (judge_type(res[0], r["op"]) if "op" in r else None)
+        hit = failed.get(0) or (None if "op" not in r else ("def_in is false" if not res[0]["def_in"] else None)
+                                if r["op"] == "def_in" else judge_type(res[0], r["op"]))
     elif r["kind"] == "probe":
         op = [o for o in L.ops_for(rep) if o.oid == r["op"]][0]
-        res, _ = core.run_probes(cfg, [core.Probe(0, L.probe_code(u, rep, op), "accept")], wd, "rp", L.DUMP_PREAMBLE)
+        res, _ = core.run_probes(cfg, [core.Probe(0, L.probe_code(u, rep, op), "accept")], wd, "rp", PREAMBLE)
         hit = res[0][1] or "rejected" if res[0][0] == "reject" else None
     elif r["kind"] == "value":
         res, failed = psx.run_dump(cfg, [L.single_value_record(u, rep, r["op"], r["a"], r["b"])], wd, "rp",
